@@ -117,6 +117,10 @@ func runC01(c *core.Ctx) {
 		runWideBTree(c, j, func(m *KVMon[int, int]) { m.Map = true })
 		return
 	}
+	if j := c.Index - len(exhaustivePlans(c.Tier)) - hugeCases - wideBTreeCases; j >= 0 && j < 6 {
+		runHugeHash(c, j%3) // HashMap, LinkedHashMap, HashBidiMap beyond 4096 entries
+		return
+	}
 	kind := kvKinds[c.Index%len(kvKinds)]
 	if c.Index%len(kvKinds) >= 4 && (c.Index/len(kvKinds))%2 == 1 {
 		kind = kvKinds[(c.Index/len(kvKinds)/2)%3] // weight towards the three trees
@@ -160,6 +164,7 @@ func init() {
 			f := &floorCheck{m: m}
 			exhaustiveFloors(tier, f)
 			f.atLeast("obs:wide-btree-cases", wideBTreeCases)
+			f.atLeast("obs:huge-hash-cases", 6)
 			f.atLeast("remove:RedBlackTree-two-children", 1000)
 			f.atLeast("remove:AVLTree-two-children", 1000)
 			f.atLeast("remove:BTree-inner-node", 1000)
